@@ -58,9 +58,9 @@ Proof.
 Qed.
 
 Lemma split_fuel : forall (K : Type) keqb (key : node P -> K) cut_name (g : graph P),
-  topo (heap g) -> valid_sinks g -> split_graph keqb key cut_name g <> Err OOF.
+  topo (heap g) -> valid_sinks g -> split_graph_k keqb key cut_name g <> Err OOF.
 Proof.
-  intros K keqb key cut_name g Ht Hs. unfold split_graph.
+  intros K keqb key cut_name g Ht Hs. unfold split_graph_k.
   destruct (transform (split_visit keqb key cut_name) split_output (heap g) (sinks g) (mkS [] [] [] [] [])) as [x|e] eqn:Htr; simpl; [discriminate|].
   intros Heq. injection Heq as ->. revert Htr.
   apply (transform_fuel P _ _ _ (split_visit keqb key cut_name) split_output (heap g) Ht); [| |exact Hs].
